@@ -401,6 +401,16 @@ func checkRelayLoops(c *Ctx, res *report.Result, rule string, files []string, mi
 		}
 		if why, ok := relayAggregators[shortFn(f)]; ok {
 			res.Hold(rule, shortFn(f)+": relay loop (reviewed exception)", fnPos(c.Prog, f), why)
+			// an aggregator still must not run on the set side of its latch, nor go on after a failed Send
+			inv := latchInverted(f)
+			res.Check(len(inv) == 0, rule, shortFn(f)+": takes are made while the latch is not set", fnPos(c.Prog, f), "ok", "the take is made on the side on which IsShutdown() was just found true: the worker does nothing until it is told to stop")
+			if failed, nSends := relayContinuesAfterFailedSend(f); nSends > 0 {
+				pos := fnPos(c.Prog, f)
+				if len(failed) > 0 {
+					pos = instrPos(c.Prog, failed[0])
+				}
+				res.Check(len(failed) == 0, rule, shortFn(f)+": the loop ends when a Send fails", pos, fmt.Sprintf("%d stream Send(s)", nSends), "the error of a stream Send is not tested, or the next take is reachable from the side on which it is non-nil")
+			}
 			continue
 		}
 		bad := map[ssa.Instruction]relayBypass{}
